@@ -26,6 +26,10 @@ CHECKS = {
          "Exploration: every leaf pair x operator, every depth-2 tree in both association shapes over mixed and homogeneous leaf pools, and >100k random type-directed trees are rendered with minimal and full parentheses; the captured typed value, the operand evaluation order and error-ness must equal an independent reference evaluator built from the property statement.",
          "The reference evaluator is the trusted base; cases whose meaning the statement does not fix are counted as excluded:unspecified.",
          "DESIGN.md §4 C06"),
+ "C07": ("exhaustive truth-table matrix (53 value kinds x 18 test positions) and exhaustive if/else-if/else chains with recording conditions; rapid nested chains against the reference interpreter",
+         "Exploration: the whole kind x position matrix and every chain of <=4 branches over 9 condition values x else x 5 placements are enumerated; output must be the first truthy branch and the recorded condition evaluations exactly the prefix up to it; random nested chains with ! && || are compared with the reference interpreter.",
+         "Truth table taken from the property statement; typed-nil slices/maps/funcs are outside it.",
+         "DESIGN.md §4 C07"),
 }
 
 NOT_BUILT = "check not built yet in this session (see DESIGN.md §4 for its plan); will be claimed once its check is committed"
